@@ -22,6 +22,9 @@ def sh(cmd, cwd=None, timeout=1800):
 
 def main():
     pid, src, sid, pkgdir = sys.argv[1:5]
+    if pkgdir == "auto":
+        m = re.search(r"^PACKAGE:\s*(\S+)", open(os.path.join(src, "notes.md")).read(), re.M)
+        pkgdir = m.group(1).strip("./") if m else "mcp"
     pkgs = sys.argv[5:] or ["./" + pkgdir + "/"]
     also = os.environ.get("SEED_ALSO", "").split()   # further properties to run the checks for
     wt = "/tmp/sc-" + sid
